@@ -23,7 +23,7 @@ pub trait RollingValidReg<T: IsNone>: Vec1View<T> {
         T::Inner: Number,
         f64: Cast<U>,
     {
-        let min_periods = min_periods.unwrap_or(window / 2).min(window);
+        let min_periods = min_periods.unwrap_or(window / 2).min(window).max(2);
         let mut sum = 0.;
         let mut sum_xt = 0.;
         let mut n = 0;
@@ -83,7 +83,7 @@ pub trait RollingValidReg<T: IsNone>: Vec1View<T> {
         T::Inner: Number,
         f64: Cast<U>,
     {
-        let min_periods = min_periods.unwrap_or(window / 2).min(window);
+        let min_periods = min_periods.unwrap_or(window / 2).min(window).max(2);
         let mut sum = 0.;
         let mut sum_xt = 0.;
         let mut n = 0;
@@ -143,7 +143,7 @@ pub trait RollingValidReg<T: IsNone>: Vec1View<T> {
         T::Inner: Number,
         f64: Cast<U>,
     {
-        let min_periods = min_periods.unwrap_or(window / 2).min(window);
+        let min_periods = min_periods.unwrap_or(window / 2).min(window).max(2);
         let mut sum = 0.;
         let mut sum_xt = 0.;
         let mut n = 0;
@@ -201,7 +201,7 @@ pub trait RollingValidReg<T: IsNone>: Vec1View<T> {
         T::Inner: Number,
         f64: Cast<U>,
     {
-        let min_periods = min_periods.unwrap_or(window / 2).min(window);
+        let min_periods = min_periods.unwrap_or(window / 2).min(window).max(2);
         let mut sum = 0.;
         let mut sum_xt = 0.;
         let mut n = 0;
@@ -260,7 +260,7 @@ pub trait RollingValidReg<T: IsNone>: Vec1View<T> {
         T::Inner: Number,
         f64: Cast<U>,
     {
-        let min_periods = min_periods.unwrap_or(window / 2).min(window);
+        let min_periods = min_periods.unwrap_or(window / 2).min(window).max(2);
         let mut sum = 0.;
         let mut sum_xx = 0.;
         let mut sum_xt = 0.;
@@ -335,7 +335,7 @@ pub trait RollingValidRegBinary<T: IsNone>: Vec1View<T> {
         T2::Inner: Number,
         f64: Cast<U>,
     {
-        let min_periods = min_periods.unwrap_or(window / 2).min(window);
+        let min_periods = min_periods.unwrap_or(window / 2).min(window).max(2);
         let mut sum_a = 0.;
         let mut sum_b = 0.;
         let mut sum_b2 = 0.;
@@ -403,7 +403,7 @@ pub trait RollingValidRegBinary<T: IsNone>: Vec1View<T> {
         T2::Inner: Number,
         f64: Cast<U>,
     {
-        let min_periods = min_periods.unwrap_or(window / 2).min(window);
+        let min_periods = min_periods.unwrap_or(window / 2).min(window).max(2);
         let mut sum_a = 0.;
         let mut sum_b = 0.;
         let mut sum_b2 = 0.;
@@ -468,7 +468,7 @@ pub trait RollingValidRegBinary<T: IsNone>: Vec1View<T> {
         T2::Inner: Number,
         f64: Cast<U>,
     {
-        let min_periods = min_periods.unwrap_or(window / 2).min(window);
+        let min_periods = min_periods.unwrap_or(window / 2).min(window).max(2);
         let mut sum_a = 0.;
         let mut sum_b = 0.;
         let mut sum_b2 = 0.;
@@ -545,7 +545,7 @@ pub trait RollingValidRegBinary<T: IsNone>: Vec1View<T> {
         T2::Inner: Number,
         f64: Cast<U>,
     {
-        let min_periods = min_periods.unwrap_or(window / 2).min(window);
+        let min_periods = min_periods.unwrap_or(window / 2).min(window).max(2);
         let mut sum_a = 0.;
         let mut sum_b = 0.;
         let mut sum_b2 = 0.;
@@ -622,7 +622,7 @@ pub trait RollingValidRegBinary<T: IsNone>: Vec1View<T> {
         T2::Inner: Number,
         f64: Cast<U>,
     {
-        let min_periods = min_periods.unwrap_or(window / 2).min(window);
+        let min_periods = min_periods.unwrap_or(window / 2).min(window).max(2);
         let mut sum_a = 0.;
         let mut sum_b = 0.;
         let mut sum_b2 = 0.;
@@ -716,7 +716,7 @@ pub trait RollingValidRegBinary<T: IsNone>: Vec1View<T> {
         T2::Inner: Number,
         f64: Cast<U>,
     {
-        let min_periods = min_periods.unwrap_or(window / 2).min(window);
+        let min_periods = min_periods.unwrap_or(window / 2).min(window).max(2);
         let mut sum_a = 0.;
         let mut sum_b = 0.;
         let mut sum_b2 = 0.;
